@@ -241,7 +241,6 @@ func confContent(p *Program, id string) []Obligation {
 	return out
 }
 
-
 // singleStoreBefore returns the value of the only whole-variable store to al that dominates `before`.
 func singleStoreBefore(al *ssa.Alloc, before ssa.Instruction) ssa.Value {
 	var v ssa.Value
